@@ -141,6 +141,15 @@ def variants(n, rng, budget):
 
 def run_unit(probe, res, decls, planted, tag, rng, budget, bad_kinds, presence_only=False):
     canonical_texts = [vgen.render_decl(d) for d in decls]
+    headers = [""] * len(decls)
+    if rng.random() < 0.2:
+        # the way OSCAT exports look: every declaration carries a description header (empty here, so that it means the
+        # same however many of them end up in one file)
+        headers = ["(*@KEY@:DESCRIPTION*)%s(*@KEY@:END_DESCRIPTION*)\n" % rng.choice(["", "\n", " ", "\n\n"])
+                   if rng.random() < 0.8 else "" for _ in decls]
+        res.count("unit-with-oscat-headers")
+    plain_texts = canonical_texts
+    canonical_texts = [h + t for h, t in zip(headers, plain_texts)]
     decl_texts = canonical_texts
     n = len(decls)
     vs, exhaustive = variants(n, rng, budget)
@@ -151,7 +160,7 @@ def run_unit(probe, res, decls, planted, tag, rng, budget, bad_kinds, presence_o
     for vi, (perm, blocks) in enumerate(vs):
         # every 5th variant also re-spells identifier occurrences in another letter case (same length, so the
         # offsets used for the location comparison do not move)
-        decl_texts = [vgen.recase_identifiers(t, rng) for t in canonical_texts] if vi % 5 == 4 else canonical_texts
+        decl_texts = [h + vgen.recase_identifiers(t, rng) for h, t in zip(headers, plain_texts)] if vi % 5 == 4 else canonical_texts
         files, _ = compose(decl_texts, blocks)
         if vi % 3 == 2:
             # a file that declares nothing (empty, blank, only a comment) somewhere in the set changes nothing
@@ -242,6 +251,17 @@ def shard(shard_i, nshards, payload):
             samet = {"k": "raw", "text": "TYPE\n  SameType : (sa, sb);\nEND_TYPE"}
             dupbad = [{"k": "raw", "text": "PROGRAM DupHalfBad\nVAR x : INT; END_VAR\nx := 1;\nEND_PROGRAM"},
                       {"k": "raw", "text": "PROGRAM DupHalfBad\nVAR y : INT; END_VAR\ny := notDeclaredAnywhere;\nEND_PROGRAM"}]
+            # the same name as a constant global of one configuration and a plain global of another, and a plain
+            # external of that name: it refers to a constant global wherever the three declarations stand
+            gq = [{"k": "raw", "text": "CONFIGURATION CfgConstShared\nVAR_GLOBAL CONSTANT\n  sharedG : INT := 1;\nEND_VAR\n  RESOURCE rcs ON PLC\n"
+                                       "    PROGRAM ics : UsesSharedG;\n  END_RESOURCE\nEND_CONFIGURATION"},
+                  {"k": "raw", "text": "CONFIGURATION CfgPlainShared\nVAR_GLOBAL\n  sharedG : INT;\nEND_VAR\n  RESOURCE rps ON PLC\n"
+                                       "    PROGRAM ips : UsesSharedG;\n  END_RESOURCE\nEND_CONFIGURATION"},
+                  {"k": "raw", "text": "PROGRAM UsesSharedG\nVAR_EXTERNAL\n  sharedG : INT;\nEND_VAR\nVAR y : INT; END_VAR\ny := sharedG;\nEND_PROGRAM"}]
+            m = list(decls[:2])
+            for e_ in gq:
+                m.insert(rng.randrange(len(m) + 1), e_)
+            run_unit(probe, res, m, "P0018", "fault:constant-and-plain-global", rng, max(60, payload["budget"] // 4), (), presence_only=True)
             for extra, code, tag in ((cyc, "P0010", "fault:cycle"), (dup, "P0020", "fault:duplicate"),
                                      (dupbad, "P0020", "fault:duplicate-one-copy-faulty"),
                                      ([same, dict(same)], "P0020", "fault:identical-twice"),
